@@ -23,6 +23,12 @@ CHECKS['C02']=dict(level='exploration', ref='4.2', technique='deterministic simu
 CHECKS['C03']=dict(level='fault_enumeration', ref='4.3', technique='deterministic simulation with fault injection on the link: every truncation offset and every length/count-octet substitution of canonical images enumerated, seeded mixed faults, random frames and hostile text to every parser; panic / watchdog / allocation-meter / truncation-soundness oracles',
    text='Canonical images of all 57 types from the model peer are truncated at every offset (prefix lying or rewritten) and have every length/count octet substituted by {0,1,0x7f,0x80,0xff} (enumerated per corpus image), plus seeded combinations, garbage tails, random frames and hostile text; the receiver runs dispatcher, IDecode (right and wrong type), String, GenEmptyResponse, re-encode and all content parsers under recover, a 20 s no-progress watchdog, a 5 GiB address-space limit and an allocation meter.',
    note='Allocation bound is deliberately coarse (256 x input + 8 MiB) so that only allocations driven by an unchecked length field trip it; coverage-guided fuzzing named in the quantifier is a different technique and is not used.')
+CHECKS['C20']=dict(level='exploration', ref='4.20', technique='deterministic simulation in the small: seeded operation histories x injected failure position / truncation position, checked operation by operation against a reference model; failure positions enumerated for short histories',
+   text='Write histories (0..200 operations, arbitrary arguments) with one failing operation injected at a chosen position, the mirrored read history, and read histories against inputs cut at a chosen position are compared after every operation with a 30-line reference model (bytes, count, sticky first error). Every failure position of histories <= 12 operations and every truncation offset of inputs < 80 octets is enumerated.',
+   note='No schedule or clock is involved; the simulated fault is the position of the failing operation inside the history.')
+CHECKS['C16']=dict(level='exploration', ref='4.16', technique='deterministic simulation: emission order of optional parameters chosen by the seed through a tag-guarded hook, tails truncated / corrupted on the link, both parsers of each container compared with a model triplet parser',
+   text='Sets of 0..32 parameters (value lengths on the 16-bit edges) are serialised in a seed-chosen order and parsed by both entry points of each container and through the five PDU types that carry them; damaged tails must never yield a parameter that is not completely present; oversize values, Add on an empty container and typed accessors on short values are exercised.',
+   note='Go map iteration order is replaced by the seed through verifhook.ReorderTriplets; the tag / length value space is sampled.')
 PENDING = {}
 def load_extra():
     try:
